@@ -3,147 +3,747 @@ from __future__ import annotations
 
 import ast
 import itertools
+import re
+from dataclasses import dataclass, field
 
-from ..boolfn import Opaque, TableEvaluator
 from ..core import Ctx
-from ..match import arg, call_name, calls, facts_at, local_defs, mentions, resolve, single_def, stores
-from ..model import AnalysisError, FuncInfo, ancestors, chain, const_value, enclosing_stmt, norm, parent, strip_cast, walk_no_nested
+from ..match import stores
+from ..model import AnalysisError, FuncInfo, chain, const_value, norm, strip_cast
 
 LEVEL = "other"
 EXPLANATION = (
     "Only the two clauses whose truth is in the shape of the code: (1) whenever an introduction response carries a "
     "non-null introduction, every path also sends a puncture request - built from the requester's LAN/WAN addresses and "
-    "the request identifier - to the introduced peer, and the requester itself is never introduced; (2) the LAN/WAN "
+    "the request identifier - to the introduced peer, the requester itself is never introduced, and every answered IPv4 "
+    "introduction request first records the requester's LAN address (the only source of the LAN address handed out later); (2) the LAN/WAN "
     "selection at the requester and the puncture target at the introduced peer are evaluated as decision tables over "
-    "their atoms (wan known, lan known, same public IP) and must equal the stated tables. Reachability for the 4x4 NAT "
+    "their atoms (wan known, lan known, same public IP) and must equal the stated tables. The functions are evaluated "
+    "symbolically path by path (locals substituted by their values, conditions forked on their atoms), so the verdict "
+    "does not depend on how the branches, locals or helpers are spelled. Reachability for the 4x4 NAT "
     "matrix needs a filtering/translating network model and is not decided."
 )
 
 CM = "ipv8/community.py"
 NULL = ("0.0.0.0", 0)
+NULL_T = "('0.0.0.0', 0)"
 
 
-def rule_puncture_accompanies(ctx: Ctx) -> None:
+# ---------------------------------------------------------------------------------------------------------------------
+# Path-by-path symbolic evaluation of small handler functions.
+#
+# A run executes the function body once.  Locals are bound to *value expressions* (ast nodes in which every local has
+# been replaced by its own value), so `x = payload.wan; if x[0] == ...` and `if payload.wan[0] == ...` are the same
+# condition.  A condition is split into atoms (not / and / or / if-else / chained comparisons are evaluated with
+# short-circuit order); an atom whose truth is not known on the current path is looked up in the preset table of the
+# rule and otherwise decided both ways: the function is re-run once per decision sequence.  Every run yields one path
+# with the facts it assumed, the calls it made (evaluated arguments), its stores to attributes / subscripts and the
+# returned value.  Nothing here depends on the position or the syntactic form of a statement.
+# ---------------------------------------------------------------------------------------------------------------------
+
+class _Ret(Exception):
+    def __init__(self, value) -> None:
+        self.value = value
+
+
+class _Brk(Exception):
+    pass
+
+
+class _Cnt(Exception):
+    pass
+
+
+class _Rse(Exception):
+    pass
+
+
+@dataclass
+class _Call:
+    chain: str | None
+    call: ast.Call          # evaluated call (locals substituted)
+    src: ast.Call           # node in the analysed tree
+    facts: dict
+    ver: dict
+
+    def arg(self, index: int | None, name: str | None = None):
+        c = self.call
+        if index is not None and index < len(c.args) and not any(isinstance(a, ast.Starred) for a in c.args[: index + 1]):
+            return c.args[index]
+        if name:
+            for k in c.keywords:
+                if k.arg == name:
+                    return k.value
+        return None
+
+
+@dataclass
+class _Store:
+    target: str             # text of the evaluated target, e.g. `peer.address`, `self._all_addresses[address]`
+    value: ast.expr | None
+    src: ast.stmt
+    facts: dict
+    ver: dict
+
+
+@dataclass
+class _Path:
+    end: str = "return"     # return | raise
+    ret: ast.expr | None = None
+    calls: list = field(default_factory=list)
+    stores: list = field(default_factory=list)
+    facts: dict = field(default_factory=dict)
+    env: dict = field(default_factory=dict)
+    ver: dict = field(default_factory=dict)
+    forked: list = field(default_factory=list)     # keys that were decided by forking (not preset, not derived)
+    pretty: dict = field(default_factory=dict)
+
+    def extra(self) -> str:
+        """the conditions this path assumed beyond the rule's own atoms, readable"""
+        return ", ".join(self.pretty.get(k, (k, "not " + k))[0 if self.facts[k] else 1] for k in self.forked) or "-"
+
+
+_VER = re.compile(r"@\d+")
+
+
+def _unver(text: str) -> str:
+    return _VER.sub("", text)
+
+
+def _t(e) -> str:
+    return "<none>" if e is None else norm(e)
+
+
+def _is_get(e: ast.AST):
+    """`D.get(k)` / `D.get(k, None)` -> (D, k) else None"""
+    if isinstance(e, ast.Call) and isinstance(e.func, ast.Attribute) and e.func.attr == "get" and not e.keywords \
+            and 1 <= len(e.args) <= 2 and not any(isinstance(a, ast.Starred) for a in e.args):
+        if len(e.args) == 1 or (isinstance(e.args[1], ast.Constant) and e.args[1].value is None):
+            return e.func.value, e.args[0]
+    return None
+
+
+def _has_call(e: ast.AST) -> bool:
+    return any(isinstance(n, (ast.Call, ast.NamedExpr, ast.Await)) for n in ast.walk(e))
+
+
+class _Run:
+    def __init__(self, fi: FuncInfo, preset: dict, prefix: list) -> None:
+        self.fi = fi
+        self.preset = preset
+        self.prefix = prefix
+        self.trace: list[bool] = []
+        self.alternatives: list[list[bool]] = []
+        self.env: dict[str, ast.expr] = {}
+        self.facts: dict[str, bool] = {}
+        self.ver: dict[str, int] = {}
+        self.forked: list[str] = []
+        self.calls: list[_Call] = []
+        self.stores: list[_Store] = []
+        self.pretty: dict[str, tuple[str, str]] = {}
+
+    # ------------------------------------------------------------------------------------------------ driver
+    def go(self) -> _Path:
+        p = _Path()
+        try:
+            self.block(self.fi.node.body)
+        except _Ret as r:
+            p.ret = r.value
+        except _Rse:
+            p.end = "raise"
+        except (_Brk, _Cnt):
+            raise AnalysisError(f"undecided: break/continue outside a loop in {self.fi.qualname}") from None
+        p.calls, p.stores, p.facts, p.env, p.ver, p.forked = self.calls, self.stores, self.facts, self.env, self.ver, self.forked
+        p.pretty = self.pretty
+        return p
+
+    def undecided(self, what: str):
+        return AnalysisError(f"undecided: symbolic evaluation of {self.fi.qualname} does not support {what}")
+
+    # ------------------------------------------------------------------------------------------------ facts
+    def decide(self, key: str) -> bool:
+        i = len(self.trace)
+        if i < len(self.prefix):
+            v = self.prefix[i]
+        else:
+            v = False
+            self.alternatives.append([*self.trace, True])
+        self.trace.append(v)
+        self.forked.append(key)
+        return v
+
+    def lookup(self, key: str) -> bool:
+        if key in self.facts:
+            return self.facts[key]
+        v = None
+        if key.startswith("t:") and self.facts.get(f"is:{key[2:]}:None") is True:
+            v = False                                   # x is None  =>  not x
+        elif key.startswith("is:") and key.endswith(":None") and self.facts.get("t:" + key[3:-5]) is True:
+            v = False                                   # x truthy   =>  x is not None
+        if v is None:
+            pk = _unver(key)
+            if pk in self.preset:
+                v = self.preset[pk]
+        if v is None:
+            v = self.decide(key)
+        self.facts[key] = v
+        return v
+
+    def cmp_key(self, l: ast.expr, op: ast.cmpop, r: ast.expr):
+        """(key, polarity) of one comparison of evaluated operands, or (None, value) when it is decided statically."""
+        key, pol = self._cmp_key(l, op, r)
+        if key is not None and key not in self.pretty:
+            kind, sym = key.split(":", 1)[0], {"eq": ("==", "!="), "is": ("is", "is not"), "in": ("in", "not in"), "lt": ("<", ">=")}
+            a, b = (_t(l), _t(r)) if kind != "lt" or isinstance(op, (ast.Lt, ast.GtE)) else (_t(r), _t(l))
+            if kind == "in" and not isinstance(op, (ast.In, ast.NotIn)):
+                g = _is_get(strip_cast(l)) or _is_get(strip_cast(r))
+                a, b = _t(g[1]), _t(g[0])
+            self.pretty[key] = (f"{a} {sym[kind][0]} {b}", f"{a} {sym[kind][1]} {b}")
+        return key, pol
+
+    def _cmp_key(self, l: ast.expr, op: ast.cmpop, r: ast.expr):
+        l, r = strip_cast(l), strip_cast(r)
+        if isinstance(op, (ast.Eq, ast.NotEq)):
+            cl, cr = const_value(l), const_value(r)
+            pol = isinstance(op, ast.Eq)
+            if not _noconst(cl) and not _noconst(cr):
+                return None, (cl == cr) == pol
+            a, b = sorted((_t(l), _t(r)), key=_unver)
+            if a == b:
+                return None, pol
+            return f"eq:{a}:{b}", pol
+        if isinstance(op, (ast.Is, ast.IsNot)):
+            pol = isinstance(op, ast.Is)
+            if isinstance(l, ast.Constant) and l.value is None:
+                l, r = r, l
+            if isinstance(r, ast.Constant) and r.value is None:
+                if isinstance(l, ast.Constant):
+                    return None, (l.value is None) == pol
+                if isinstance(l, (ast.Tuple, ast.List, ast.Dict, ast.Set, ast.JoinedStr)):
+                    return None, not pol
+                g = _is_get(l)
+                if g is not None:                        # D.get(k) is None  <=>  k not in D   (values are never None)
+                    return f"in:{_t(g[1])}:{_t(g[0])}", not pol
+            return f"is:{_t(l)}:{_t(r)}", pol
+        if isinstance(op, (ast.In, ast.NotIn)):
+            return f"in:{_t(l)}:{_t(r)}", isinstance(op, ast.In)
+        if isinstance(op, ast.Lt):
+            return f"lt:{_t(l)}:{_t(r)}", True
+        if isinstance(op, ast.GtE):
+            return f"lt:{_t(l)}:{_t(r)}", False
+        if isinstance(op, ast.Gt):
+            return f"lt:{_t(r)}:{_t(l)}", True
+        if isinstance(op, ast.LtE):
+            return f"lt:{_t(r)}:{_t(l)}", False
+        raise self.undecided(f"comparison operator {type(op).__name__}")
+
+    def truth(self, v: ast.expr) -> bool:
+        """truth value of an evaluated expression on this path (forks on unknown atoms)"""
+        v = strip_cast(v)
+        if isinstance(v, ast.Constant):
+            return bool(v.value)
+        if isinstance(v, (ast.List, ast.Tuple, ast.Set)) and not any(isinstance(e, ast.Starred) for e in v.elts):
+            return bool(v.elts)
+        if isinstance(v, ast.Dict) and all(k is not None for k in v.keys):
+            return bool(v.keys)
+        if isinstance(v, ast.UnaryOp) and isinstance(v.op, ast.Not):
+            return not self.truth(v.operand)
+        if isinstance(v, ast.BoolOp):
+            if isinstance(v.op, ast.And):
+                return all(self.truth(x) for x in v.values)
+            return any(self.truth(x) for x in v.values)
+        if isinstance(v, ast.IfExp):
+            return self.truth(v.body) if self.truth(v.test) else self.truth(v.orelse)
+        if isinstance(v, ast.Compare):
+            left = v.left
+            for op, right in zip(v.ops, v.comparators):
+                key, pol = self.cmp_key(left, op, right)
+                val = pol if key is None else (self.lookup(key) == pol)
+                if not val:
+                    return False
+                left = right
+            return True
+        if isinstance(v, ast.Call) and isinstance(v.func, ast.Name) and v.func.id == "bool" and len(v.args) == 1 and not v.keywords:
+            return self.truth(v.args[0])
+        g = _is_get(v)
+        if g is not None:                                # D.get(k) truthy  <=>  k in D and D[k] truthy
+            kin = f"in:{_t(g[1])}:{_t(g[0])}"
+            self.pretty.setdefault(kin, (f"{_t(g[1])} in {_t(g[0])}", f"{_t(g[1])} not in {_t(g[0])}"))
+            return self.lookup(kin) and self.truth(ast.Subscript(value=g[0], slice=g[1], ctx=ast.Load()))
+        key = "t:" + _t(v)
+        self.pretty.setdefault(key, (_t(v), f"not {_t(v)}"))
+        return self.lookup(key)
+
+    def key_of(self, text: str):
+        """(key, polarity) of an atom given as source text (no locals)"""
+        e = ast.parse(text, mode="eval").body
+        if isinstance(e, ast.Compare) and len(e.ops) == 1:
+            return self.cmp_key(e.left, e.ops[0], e.comparators[0])
+        return "t:" + _t(e), True
+
+    # ------------------------------------------------------------------------------------------------ values
+    def versioned(self, n: ast.expr) -> ast.expr:
+        t = _t(n)
+        k = self.ver.get(t)
+        return ast.Name(id=f"{t}@{k}", ctx=ast.Load()) if k else n
+
+    def ev(self, e: ast.expr) -> ast.expr:
+        if isinstance(e, ast.Constant):
+            return e
+        if isinstance(e, ast.Name):
+            if e.id in self.env:
+                return self.env[e.id]
+            return self.versioned(ast.Name(id=e.id, ctx=ast.Load()))
+        if isinstance(e, ast.Attribute):
+            b = self.base(self.ev(e.value))
+            return self.versioned(ast.Attribute(value=b, attr=e.attr, ctx=ast.Load()))
+        if isinstance(e, ast.Subscript):
+            b = self.base(self.ev(e.value))
+            return self.versioned(ast.Subscript(value=b, slice=self.ev(e.slice), ctx=ast.Load()))
+        if isinstance(e, ast.Slice):
+            return ast.Slice(lower=self.ev(e.lower) if e.lower else None, upper=self.ev(e.upper) if e.upper else None,
+                             step=self.ev(e.step) if e.step else None)
+        if isinstance(e, ast.Starred):
+            return ast.Starred(value=self.ev(e.value), ctx=ast.Load())
+        if isinstance(e, ast.Call):
+            return self.call(e)
+        if isinstance(e, ast.BoolOp):
+            if not _has_call(e):
+                return ast.BoolOp(op=e.op, values=[self.ev(v) for v in e.values])      # pure: kept symbolic, decided when tested
+            is_and = isinstance(e.op, ast.And)
+            val = None
+            for v in e.values:
+                val = self.ev(v)
+                if v is e.values[-1] or self.truth(val) != is_and:
+                    return val
+            return val
+        if isinstance(e, ast.UnaryOp):
+            return ast.UnaryOp(op=e.op, operand=self.ev(e.operand))
+        if isinstance(e, ast.BinOp):
+            return ast.BinOp(left=self.ev(e.left), op=e.op, right=self.ev(e.right))
+        if isinstance(e, ast.Compare):
+            return ast.Compare(left=self.ev(e.left), ops=list(e.ops), comparators=[self.ev(c) for c in e.comparators])
+        if isinstance(e, ast.IfExp):
+            return self.ev(e.body) if self.truth(self.ev(e.test)) else self.ev(e.orelse)
+        if isinstance(e, (ast.Tuple, ast.List, ast.Set)):
+            return type(e)(elts=[self.ev(x) for x in e.elts], **({} if isinstance(e, ast.Set) else {"ctx": ast.Load()}))
+        if isinstance(e, ast.Dict):
+            return ast.Dict(keys=[self.ev(k) if k is not None else None for k in e.keys], values=[self.ev(v) for v in e.values])
+        if isinstance(e, (ast.ListComp, ast.SetComp, ast.GeneratorExp)):
+            return self.comprehension(e)
+        if isinstance(e, ast.NamedExpr):
+            v = self.ev(e.value)
+            self.env[e.target.id] = v
+            return v
+        if isinstance(e, ast.Await):
+            return ast.Await(value=self.ev(e.value))
+        if isinstance(e, ast.JoinedStr):
+            return ast.JoinedStr(values=[self.ev(v) for v in e.values])
+        if isinstance(e, ast.FormattedValue):
+            return ast.FormattedValue(value=self.ev(e.value), conversion=e.conversion, format_spec=e.format_spec)
+        if isinstance(e, ast.Lambda):
+            return e
+        raise self.undecided(f"expression `{norm(e)[:60]}`")
+
+    @staticmethod
+    def base(b: ast.expr) -> ast.expr:
+        """`D.get(k).x` reads the same value as `D[k].x` (both fail when k is missing)"""
+        g = _is_get(b)
+        if g is not None:
+            return ast.Subscript(value=g[0], slice=g[1], ctx=ast.Load())
+        return b
+
+    def call(self, e: ast.Call) -> ast.expr:
+        f = e.func
+        if isinstance(f, ast.Name) and f.id == "cast" and len(e.args) == 2:
+            return self.ev(e.args[1])
+        # mutation of a list literal held in a local
+        if isinstance(f, ast.Attribute) and isinstance(f.value, ast.Name) and isinstance(self.env.get(f.value.id), ast.List) \
+                and f.attr in ("append", "extend", "insert", "clear", "pop", "remove", "sort", "reverse") and not e.keywords:
+            cur = self.env[f.value.id]
+            args = [self.ev(a) for a in e.args]
+            if f.attr == "append" and len(args) == 1 and not isinstance(args[0], ast.Starred):
+                self.env[f.value.id] = ast.List(elts=[*cur.elts, args[0]], ctx=ast.Load())
+                return ast.Constant(value=None)
+            if f.attr == "extend" and len(args) == 1 and isinstance(args[0], (ast.List, ast.Tuple)):
+                self.env[f.value.id] = ast.List(elts=[*cur.elts, *args[0].elts], ctx=ast.Load())
+                return ast.Constant(value=None)
+            raise self.undecided(f"list mutation `{norm(e)[:60]}`")
+        fn = self.ev(f)
+        args = [self.ev(a) for a in e.args]
+        kws = [ast.keyword(arg=k.arg, value=self.ev(k.value)) for k in e.keywords]
+        c = ast.Call(func=fn, args=args, keywords=kws)
+        self.calls.append(_Call(chain(fn), c, e, dict(self.facts), dict(self.ver)))
+        return c
+
+    def comprehension(self, e) -> ast.expr:
+        saved = dict(self.env)
+
+        def gen(i: int) -> list:
+            if i == len(e.generators):
+                return [self.ev(e.elt)]
+            g = e.generators[i]
+            if g.is_async:
+                raise self.undecided("async comprehension")
+            it = self.ev(g.iter)
+            out = []
+            if isinstance(it, (ast.List, ast.Tuple)) and not any(isinstance(x, ast.Starred) for x in it.elts):
+                for x in it.elts:
+                    self.bind(g.target, x, None)
+                    if all(self.truth(self.ev(c)) for c in g.ifs):
+                        out.extend(gen(i + 1))
+                return out
+            self.bind(g.target, _each(it), None)
+            if all(self.truth(self.ev(c)) for c in g.ifs):
+                out.extend(gen(i + 1))
+            return out
+        elts = gen(0)
+        self.env = saved                                 # comprehension targets are local to the comprehension
+        return ast.List(elts=elts, ctx=ast.Load())
+
+    # ------------------------------------------------------------------------------------------------ statements
+    def bind(self, target: ast.expr, value: ast.expr | None, stmt) -> None:
+        if isinstance(target, ast.Name):
+            if value is None:
+                self.env.pop(target.id, None)
+            else:
+                self.env[target.id] = value
+            return
+        if isinstance(target, (ast.Tuple, ast.List)):
+            if any(isinstance(t, ast.Starred) for t in target.elts):
+                raise self.undecided("starred assignment target")
+            if isinstance(value, (ast.Tuple, ast.List)) and len(value.elts) == len(target.elts) \
+                    and not any(isinstance(x, ast.Starred) for x in value.elts):
+                for t, x in zip(target.elts, value.elts):
+                    self.bind(t, x, stmt)
+            else:
+                for i, t in enumerate(target.elts):
+                    self.bind(t, ast.Subscript(value=value, slice=ast.Constant(value=i), ctx=ast.Load()), stmt)
+            return
+        if isinstance(target, ast.Attribute):
+            n = ast.Attribute(value=self.base(self.ev(target.value)), attr=target.attr, ctx=ast.Load())
+        elif isinstance(target, ast.Subscript):
+            n = ast.Subscript(value=self.base(self.ev(target.value)), slice=self.ev(target.slice), ctx=ast.Load())
+        else:
+            raise self.undecided(f"assignment target `{norm(target)[:60]}`")
+        t = _t(n)
+        self.stores.append(_Store(t, value, stmt, dict(self.facts), dict(self.ver)))
+        self.ver[t] = self.ver.get(t, 0) + 1
+
+    def block(self, stmts) -> None:
+        for s in stmts:
+            self.stmt(s)
+
+    def stmt(self, s: ast.stmt) -> None:  # noqa: C901, PLR0912
+        if isinstance(s, ast.Expr):
+            if not isinstance(s.value, ast.Constant):
+                self.ev(s.value)
+        elif isinstance(s, ast.Assign):
+            v = self.ev(s.value)
+            for t in s.targets:
+                self.bind(t, v, s)
+        elif isinstance(s, ast.AnnAssign):
+            if s.value is not None:
+                self.bind(s.target, self.ev(s.value), s)
+        elif isinstance(s, ast.AugAssign):
+            v = self.ev(s.value)
+            if isinstance(s.target, ast.Name):
+                cur = self.ev(s.target)
+                if isinstance(cur, ast.List) and isinstance(s.op, ast.Add) and isinstance(v, (ast.List, ast.Tuple)):
+                    self.env[s.target.id] = ast.List(elts=[*cur.elts, *v.elts], ctx=ast.Load())
+                else:
+                    self.env[s.target.id] = ast.BinOp(left=cur, op=s.op, right=v)
+            else:
+                cur = self.ev(s.target)
+                self.bind(s.target, ast.BinOp(left=cur, op=s.op, right=v), s)
+        elif isinstance(s, ast.If):
+            self.block(s.body if self.truth(self.ev(s.test)) else s.orelse)
+        elif isinstance(s, ast.For):
+            it = self.ev(s.iter)
+            if isinstance(it, (ast.List, ast.Tuple)) and not any(isinstance(x, ast.Starred) for x in it.elts):
+                broke = False
+                for x in it.elts:
+                    self.bind(s.target, x, s)
+                    try:
+                        self.block(s.body)
+                    except _Cnt:
+                        continue
+                    except _Brk:
+                        broke = True
+                        break
+                if not broke:
+                    self.block(s.orelse)
+            else:
+                # unknown iterable: one representative element; lists appended to in the body hold that element
+                if s.orelse:
+                    raise self.undecided("for/else over an unknown iterable")
+                self.bind(s.target, _each(it), s)
+                try:
+                    self.block(s.body)
+                except (_Cnt, _Brk):
+                    pass
+        elif isinstance(s, ast.With):
+            for item in s.items:
+                v = self.ev(item.context_expr)
+                if item.optional_vars is not None:
+                    self.bind(item.optional_vars, v, s)
+            self.block(s.body)
+        elif isinstance(s, ast.Return):
+            raise _Ret(self.ev(s.value) if s.value is not None else None)
+        elif isinstance(s, ast.Raise):
+            if s.exc is not None:
+                self.ev(s.exc)
+            raise _Rse
+        elif isinstance(s, ast.Assert):
+            if not self.truth(self.ev(s.test)):
+                raise _Rse
+        elif isinstance(s, ast.Break):
+            raise _Brk
+        elif isinstance(s, ast.Continue):
+            raise _Cnt
+        elif isinstance(s, (ast.Pass, ast.Global, ast.Nonlocal, ast.Import, ast.ImportFrom)):
+            pass
+        elif isinstance(s, ast.Delete):
+            for t in s.targets:
+                self.bind(t, None, s)
+        elif isinstance(s, ast.Try):
+            # implicit exceptions of calls are not modelled (as in the CFG queries with follow_exc=False); an explicit raise
+            # inside a guarded body would need the handlers
+            try:
+                self.block(s.body)
+                self.block(s.orelse)
+            except _Rse:
+                if s.handlers:
+                    raise self.undecided("an explicit raise inside try/except") from None
+                raise
+            finally:
+                self.block(s.finalbody)
+        else:
+            raise self.undecided(f"statement `{norm(s)[:60]}`")
+
+
+def _noconst(v) -> bool:
+    return type(v).__name__ == "_NoConst"
+
+
+def _each(it: ast.expr) -> ast.expr:
+    return ast.Name(id=f"each({_t(it)})", ctx=ast.Load())
+
+
+def _paths(fi: FuncInfo, preset: dict | None = None, limit: int = 4000) -> list[_Path]:
+    out = []
+    stack: list[list[bool]] = [[]]
+    while stack:
+        run = _Run(fi, preset or {}, stack.pop())
+        out.append(run.go())
+        stack.extend(run.alternatives)
+        if len(out) + len(stack) > limit:
+            raise AnalysisError(f"undecided: more than {limit} paths through {fi.qualname}")
+    return out
+
+
+def _preset(fi: FuncInfo, atoms: dict[str, bool]) -> dict[str, bool]:
+    """{atom source text: value} -> {fact key: value}"""
+    r = _Run(fi, {}, [])
+    out = {}
+    for text, val in atoms.items():
+        key, pol = r.key_of(text)
+        out[key] = val if pol else not val
+    return out
+
+
+def _fact(facts: dict, fi: FuncInfo, text: str):
+    """value of the atom `text` among the facts (any version of the mentioned attributes), None when not decided"""
+    key, pol = _Run(fi, {}, []).key_of(text)
+    for k, v in facts.items():
+        if _unver(k) == key:
+            return v if pol else not v
+    return None
+
+
+def _cur(text: str, ver: dict) -> str:
+    """spelling of the attribute chain `text` when read under the store versions `ver`"""
+    k = ver.get(text)
+    return f"{text}@{k}" if k else text
+
+
+def _args(c: ast.Call, names: list[str]) -> list[str] | None:
+    """texts of the first len(names) parameters of a call, positional or by keyword"""
+    out = []
+    for i, n in enumerate(names):
+        if i < len(c.args):
+            if any(isinstance(a, ast.Starred) for a in c.args[: i + 1]):
+                return None
+            out.append(_t(c.args[i]))
+        else:
+            k = next((k for k in c.keywords if k.arg == n), None)
+            out.append(_t(k.value) if k else "<missing>")
+    return out
+
+
+# ---------------------------------------------------------------------------------------------------------------------
+
+def rule_puncture_accompanies(ctx: Ctx) -> None:  # noqa: C901, PLR0912, PLR0915
     repo = ctx.repo
     fi = repo.method("Community", "create_introduction_response", CM)
-    cfg = ctx.cfg(fi)
     p = fi.params()
-    lan_sock, sock, ident = p[1], p[2], p[3]
-    # where the payload's introduction fields become non-null
-    nonnull = [d[0] for name in ("introduction_lan", "introduction_wan") for d in local_defs(fi, name)
-               if d[1] is not None and const_value(d[1]) != NULL]
-    ctx.floor("puncture-accompanies.sites", len(nonnull), 2)
-    sends = []
-    for c in calls(fi, "self.endpoint.send"):
-        pk = resolve(fi, arg(c, 1))
-        if isinstance(pk, ast.Call) and chain(pk.func) == "self.create_puncture_request":
-            sends.append((c, pk))
-    ctx.check(len(sends) == 1, "puncture-accompanies", fi, fi.node, "create_introduction_response sends one puncture request", "no puncture request is sent with an introduction")
-    if len(sends) != 1:
-        return
-    c, pk = sends[0]
-    sn = cfg.nodes_for(c)
-    # flag discipline: the non-null assignments sit in the `if introduction:` block that also sets `introduced = True`;
-    # neither variable is rebound afterwards, so the false edges of `introduced` / `introduction is not None` are infeasible
-    blocks = [a for st in nonnull for a in ancestors(st) if isinstance(a, ast.If) and norm(a.test) == "introduction"]
-    flag = [s2 for s2 in walk_no_nested(fi.node) if isinstance(s2, ast.Assign) and norm(s2.targets[0]) == "introduced" and const_value(s2.value) is True]
-    same_block = bool(blocks) and len({id(b) for b in blocks}) == 1 and len(flag) == 1 and any(a is blocks[0] for a in ancestors(flag[0]))
-    last = max((getattr(b, "end_lineno", 0) for b in blocks), default=0)
-    rebound = [d for name in ("introduced", "introduction") for d in local_defs(fi, name) if d[0].lineno > last]
-    ctx.check(same_block and not rebound, "puncture-accompanies", fi, fi.node, "non-null introduction fields and `introduced = True` are set together and not rebound",
-              "the `introduced` flag does not track whether the payload carries an introduction")
-    infeasible = lambda u, v, lab: u.kind == "cond" and lab is False and norm(u.ast) in ("introduced", "introduction is not None")  # noqa: E731
-    for st in nonnull:
-        firsts = [v for n in cfg.nodes_for(st) for v, lab in n.succ if lab != "exc"]
-        r = cfg.reach(firsts, cut_nodes=sn, cut_edge=infeasible, follow_exc=False)
-        ok = cfg.exit not in r
-        ctx.check(ok, "puncture-accompanies", fi, st, f"after `{norm(st)[:50]}` every normal path sends the puncture request",
-                  "an introduction can be handed out without asking the introduced peer to puncture towards the requester")
-    ok = norm(arg(c, 0)) == "introduction.address" and [norm(a) for a in pk.args[:3]] == [lan_sock, sock, ident]
-    ctx.check(ok, "puncture-accompanies", fi, c, "puncture request (requester LAN, requester WAN, request identifier) goes to the introduced peer",
-              "the puncture request is sent to the wrong peer or carries other addresses/identifier than the requester's")
-    # the payload carries exactly those locals
-    for pl in [x for x in calls(fi) if chain(x.func) in ("IntroductionResponsePayload", "NewIntroductionResponsePayload")]:
-        ok = norm(arg(pl, 3)) == "introduction_lan" and norm(arg(pl, 4)) == "introduction_wan" and norm(arg(pl, 0)) == sock
-        ctx.check(ok, "puncture-accompanies", fi, pl, "response carries (introduction_lan, introduction_wan) and the requester's address as destination",
-                  "the response's introduction fields are not the ones the puncture was requested for")
-    # requester is never introduced to itself
-    gp = [x for x in calls(fi, "self.get_peer_for_introduction")]
-    ok = len(gp) == 1 and norm(resolve(fi, arg(gp[0], None, "exclude"))) == f"self.network.get_verified_by_address({sock})"
-    ctx.check(ok, "puncture-accompanies", fi, fi.node, "the requester is excluded from the introduction choice", "the requester can be introduced to itself")
+    lan_sock, sock, ident, intro_param = p[1], p[2], p[3], p[4]
+    paths = [x for x in _paths(fi) if x.end == "return"]
     gf = repo.method("Community", "get_peer_for_introduction", CM)
-    comp = [n for n in ast.walk(gf.node) if isinstance(n, ast.ListComp)]
-    ok = bool(comp) and any("p != exclude" in norm(i) for g in comp[0].generators for i in g.ifs) and norm(comp[0].generators[0].iter) == "self.get_peers()"
-    ctx.check(ok, "puncture-accompanies", gf, gf.node, "introduction candidates = verified peers except the excluded one", "introduction choice ignores the exclusion")
-    # WAN/LAN of the introduction
-    lanb = [s for s in walk_no_nested(fi.node) if isinstance(s, ast.Assign) and norm(s.targets[0]) == "introduction_wan"]
-    texts = sorted(norm(s.value) for s in lanb)
-    ok = texts == sorted(["('0.0.0.0', 0)", "(self.my_estimated_wan[0], introduction_lan[1])", "introduction.address"])
-    ctx.check(ok, "puncture-accompanies", fi, fi.node, "introduced WAN = peer address, or (our WAN ip, its LAN port) for a peer on our LAN", f"introduction WAN address derivation changed: {texts}")
+    payload_names = ("IntroductionResponsePayload", "NewIntroductionResponsePayload")
+    fields = ["destination_address", "source_lan_address", "source_wan_address", "lan_introduction_address", "wan_introduction_address"]
+    seen: set[str] = set()
+    sites = set()
+    excl_nodes: dict[int, bool] = {}
+    any_send = None
+    for path in paths:
+        pls = [n for n in ast.walk(path.ret) if isinstance(n, ast.Call) and chain(n.func) in payload_names] if path.ret is not None else []
+        pls = list({id(n): n for n in pls}.values())          # `payload.msg_id` and `payload` are the same value
+        if len(pls) != 1:
+            raise AnalysisError("undecided: a return value of create_introduction_response does not contain one introduction-response payload")
+        a = _args(pls[0], fields)
+        if a is None:
+            raise AnalysisError("undecided: starred arguments in the introduction-response payload")
+        dest, lan, wan = a[0], a[3], a[4]
+        src_pl = next((c.src for c in path.calls if c.call is pls[0]), fi.node)
+        sends = [c for c in path.calls if c.chain == "self.endpoint.send" and isinstance(c.arg(1, "packet"), ast.Call)
+                 and chain(c.arg(1, "packet").func) == "self.create_puncture_request"]
+        for c in path.calls:
+            if c.chain == "self.get_peer_for_introduction":
+                ok = _t(c.arg(0, gf.params()[1])) == f"self.network.get_verified_by_address({sock})"
+                excl_nodes[id(c.src)] = excl_nodes.get(id(c.src), True) and ok
+        if dest != sock and "dest" not in seen:
+            seen.add("dest")
+            ctx.check(False, "puncture-accompanies", fi, src_pl, "response names the requester's address as destination",
+                      "the response's introduction fields are not the ones the puncture was requested for")
+        if lan == NULL_T and wan == NULL_T:
+            continue
+        sites.add((lan, wan))
+        if len(sends) != 1:
+            key = "nosend:" + lan + wan
+            if key not in seen:
+                seen.add(key)
+                ctx.check(False, "puncture-accompanies", fi, src_pl if not sends else sends[0].src,
+                          f"response introducing ({lan}, {wan}) is accompanied by one puncture request",
+                          f"an introduction ({lan}, {wan}) can be handed out without asking the introduced peer to puncture towards the "
+                          f"requester (path conditions: {path.extra()})")
+            continue
+        c = sends[0]
+        any_send = any_send or c
+        tgt = _t(c.arg(0, "socket_address"))
+        pk = c.arg(1, "packet")
+        who = tgt[: -len(".address")] if tgt.endswith(".address") else None
+        ok = who is not None and _args(pk, repo.method("Community", "create_puncture_request", CM).params()[1:4]) == [lan_sock, sock, ident]
+        key = f"send:{tgt}:{_t(pk)}"
+        if key not in seen:
+            seen.add(key)
+            ctx.check(ok, "puncture-accompanies", fi, c.src, "puncture request (requester LAN, requester WAN, request identifier) goes to the introduced peer",
+                      "the puncture request is sent to the wrong peer or carries other addresses/identifier than the requester's")
+        if not ok:
+            continue
+        # the addresses handed out are those of the peer that is asked to puncture
+        is_lan = _fact(path.facts, fi, f"isinstance({who}.address, UDPv4Address)") is True and \
+            _fact(path.facts, fi, f"self.address_is_lan({who}.address[0])") is True
+        if is_lan:
+            want = (f"{who}.address", f"(self.my_estimated_wan[0], {who}.address[1])")
+        else:
+            want = (f"{who}.addresses.get(UDPv4LANAddress, {NULL_T})", f"{who}.address")
+        origin_ok = who == intro_param or who.startswith("self.get_peer_for_introduction(")
+        key = f"derive:{is_lan}:{lan}:{wan}:{who}"
+        if key not in seen:
+            seen.add(key)
+            ctx.check((lan, wan) == want and origin_ok, "puncture-accompanies", fi, src_pl,
+                      f"introduced (LAN, WAN) = {want} for a peer {'on our LAN' if is_lan else 'elsewhere'}; the same peer gets the puncture request",
+                      f"introduction address derivation changed: the response carries ({lan}, {wan}) while the puncture request goes to {tgt}; "
+                      f"expected {want}")
+    ctx.floor("puncture-accompanies.sites", len(sites), 2)
+    ctx.check(bool(excl_nodes) and all(excl_nodes.values()), "puncture-accompanies", fi, fi.node, "the requester is excluded from the introduction choice",
+              "the requester can be introduced to itself")
+
+    # introduction candidates: elements of get_peers() that differ from the excluded peer
+    excl = gf.params()[1]
+    ok, n_choice = True, 0
+    for path in _paths(gf):
+        if path.end != "return" or path.ret is None or (isinstance(path.ret, ast.Constant) and path.ret.value is None):
+            continue
+        r = path.ret
+        good = False
+        if isinstance(r, ast.Call) and (chain(r.func) or "").split(".")[-1] == "choice" and len(r.args) == 1 and isinstance(r.args[0], ast.List):
+            each = "each(self.get_peers())"
+            elts = {_t(x) for x in r.args[0].elts}
+            # an empty literal only arises on a path whose representative element was filtered out: nothing is chosen from it
+            good = not elts or (elts == {each} and _fact(path.facts, gf, f"{each} == {excl}") is False)
+            n_choice += bool(elts)
+        ok = ok and good
+    ctx.check(ok and n_choice > 0, "puncture-accompanies", gf, gf.node, "introduction candidates = verified peers except the excluded one", "introduction choice ignores the exclusion")
+
+    # the introducer answers the requester and learns the requester's LAN address
     oir = repo.method("Community", "on_introduction_request", CM)
-    cr = [x for x in calls(oir, "self.create_introduction_response")]
-    ok = len(cr) == 1 and [norm(a) for a in cr[0].args[:3]] == ["payload.destination_address", "peer.address", "payload.identifier"]
-    snd = [x for x in calls(oir, "self.endpoint.send")]
-    ok = ok and len(snd) == 1 and norm(arg(snd[0], 0)) == "peer.address"
-    ctx.check(ok, "puncture-accompanies", oir, oir.node, "introduction response answers the requester with its own identifier", "the response is not addressed to the requester / loses the identifier")
-    st = [s for s in walk_no_nested(oir.node) if isinstance(s, ast.Assign) and norm(s.targets[0]) == "peer.address"]
-    cfgo = ctx.cfg(oir)
-    ok = len(st) == 1 and norm(st[0].value) == "UDPv4LANAddress(*payload.source_lan_address)" and \
-        any(f.op == "truthy" and f.pos and norm(f.left) == "isinstance(payload.source_lan_address, UDPv4Address)" for f in facts_at(cfgo, st[0]))
-    ctx.check(ok, "puncture-accompanies", oir, oir.node, "the requester's IPv4 LAN address is recorded with the peer", "the requester's LAN address is not learnt (same-NAT peers cannot connect over LAN)")
+    op = oir.params()
+    peer, payload = op[1], op[3]
+    answered = 0
+    ok_resp, ok_lan = True, True
+    why_lan = ""
+    lan_node = oir.node
+    for path in _paths(oir):
+        cr = [c for c in path.calls if c.chain == "self.create_introduction_response"]
+        if not cr:
+            continue
+        answered += 1
+        c = cr[0]
+        pa = _cur(f"{peer}.address", c.ver)
+        good = len(cr) == 1 and _args(c.call, p[1:4]) == [f"{payload}.destination_address", pa, f"{payload}.identifier"]
+        snd = [s for s in path.calls if s.chain == "self.endpoint.send"]
+        good = good and len(snd) == 1 and snd[0].arg(1, "packet") is c.call and _t(snd[0].arg(0, "socket_address")) == _cur(f"{peer}.address", snd[0].ver)
+        ok_resp = ok_resp and good
+        st = [s for s in path.stores if s.target == f"{peer}.address" and s.ver.get(s.target, 0) < c.ver.get(s.target, 0)]
+        lan_node = next((s.src for s in path.stores if s.target == f"{peer}.address" and lan_node is oir.node), lan_node)
+        is4 = _fact(c.facts, oir, f"isinstance({payload}.source_lan_address, UDPv4Address)")
+        want_store = f"UDPv4LANAddress(*{payload}.source_lan_address)"
+        if is4 is True:
+            good = len(st) == 1 and _t(st[0].value) == want_store
+        elif is4 is False:
+            good = not st
+        else:
+            good = False
+        if not good and not why_lan:
+            why_lan = f" (path conditions: {path.extra()})"
+        ok_lan = ok_lan and good
+    ctx.check(ok_resp and answered > 0, "puncture-accompanies", oir, oir.node, "introduction response answers the requester with its own identifier", "the response is not addressed to the requester / loses the identifier")
+    ctx.check(ok_lan and answered > 0, "puncture-accompanies", oir, lan_node, "the requester's IPv4 LAN address is recorded with the peer before every answer",
+              "the requester's LAN address is not learnt on every answered IPv4 request: the introducer later hands out a null LAN address for this peer, "
+              "so a requester behind the same NAT cannot connect to it over the LAN" + why_lan)
 
 
 def rule_requester_selection(ctx: Ctx) -> None:
     repo = ctx.repo
     fi = repo.method("Community", "on_introduction_response", CM)
-    W_, L_ = "payload.wan_introduction_address", "payload.lan_introduction_address"
-    target_if = [s for s in walk_no_nested(fi.node) if isinstance(s, ast.If) and W_ in norm(s.test) and "introductions" in norm(s)]
-    target_if = [s for s in target_if if not any(isinstance(a, ast.If) and a in target_if for a in ancestors(s))]
-    ctx.anchor(target_if, "LAN/WAN selection if-chain in on_introduction_response")
-    node = target_if[0]
-
-    def atom_of(e):
-        t = norm(e)
-        if t == f"{W_} != ('0.0.0.0', 0)":
-            return "W"
-        if t == f"{L_} != ('0.0.0.0', 0)":
-            return "L"
-        if t == f"{W_}[0] == self.my_estimated_wan[0]":
-            return "S"
-        if t == f"{W_}[0] != self.my_estimated_wan[0]":
-            return "!S"
-        if isinstance(e, ast.Compare) and ("introduction_address" in t):
-            return "?" + t
-        return None
-
-    effects: list[str] = []
-
-    def on_effect(s, env, ev):
-        if isinstance(s, ast.Expr) and isinstance(s.value, ast.Call) and chain(s.value.func) == "introductions.append":
-            a = norm(s.value.args[0])
-            if a == L_:
-                effects.append("lan")
-            elif a == W_:
-                effects.append("wan")
-            elif a == f"UDPv4Address(self.my_estimated_lan[0], {W_}[1])":
-                effects.append("mylan:wanport")
-            else:
-                effects.append("other:" + a)
-            return
-        raise AnalysisError(f"requester selection: unsupported statement `{norm(s)[:60]}`")
-
-    ev = TableEvaluator(fi, atom_of, on_effect=on_effect)
-    unknown = [n for n in ast.walk(node) if isinstance(n, ast.expr) and (atom_of(n) or "").startswith("?")]
-    if unknown:
-        ctx.check(False, "requester-selection", fi, unknown[0], "selection depends only on (wan known, lan known, same public IP)",
-                  f"the LAN/WAN selection tests something else: `{norm(unknown[0])}`")
-        return
-    bad = None
+    p = fi.params()
+    peer, payload = p[1], p[3]
+    W_, L_ = f"{payload}.wan_introduction_address", f"{payload}.lan_introduction_address"
+    MY = f"UDPv4Address(self.my_estimated_lan[0], {W_}[1])"
+    table = {}
     for w, l, s in itertools.product([False, True], repeat=3):
-        effects.clear()
-        env = {"__atoms__": {"W": w, "L": l, "S": s, "!S": not s}}
-        ev._stmt(node, env)
-        got = list(effects)
+        pre = _preset(fi, {f"{W_} != {NULL_T}": w, f"{L_} != {NULL_T}": l, f"{W_}[0] == self.my_estimated_wan[0]": s})
+        table[(w, l, s)] = [x for x in _paths(fi, pre) if x.end == "return"]
+    # the call sites that hand introduced addresses to the peer graph
+    intro_sites = set()
+    for paths in table.values():
+        for path in paths:
+            for c in path.calls:
+                if c.chain == "self.network.discover_address" and "_introduction_address" in _t(c.arg(1, "address")):
+                    intro_sites.add(id(c.src))
+    if not intro_sites:
+        raise AnalysisError("anchor-lost: discover_address of an introduced address in on_introduction_response")
+
+    def label(c: _Call) -> str:
+        a = _t(c.arg(1, "address"))
+        lab = "lan" if a == L_ else "wan" if a == W_ else "mylan:wanport" if _unver(a) == MY else "other:" + a
+        if _t(c.arg(0, "peer")) != peer:
+            lab += f"(introduced by {_t(c.arg(0, 'peer'))})"
+        return lab
+
+    bad = None
+    for (w, l, s), paths in table.items():
         if w and not s:
             want = (["lan"] if l else []) + ["wan"]
         elif l and s:
@@ -152,27 +752,28 @@ def rule_requester_selection(ctx: Ctx) -> None:
             want = ["wan", "mylan:wanport"]
         else:
             want = []
-        ok = got == want
-        ctx.instance("requester-selection", fi.where, f"wan_known={w} lan_known={l} same_nat={s} -> {got}", ok=ok)
-        if not ok and bad is None:
-            bad = (w, l, s, got, want)
+        gots = []
+        for path in paths:
+            got = [label(c) for c in path.calls if id(c.src) in intro_sites]
+            if got not in gots:
+                gots.append(got)
+            if got != want and bad is None:
+                bad = (w, l, s, got, want, path.extra())
+        ok = gots == [want]
+        ctx.instance("requester-selection", fi.where, f"wan_known={w} lan_known={l} same_nat={s} -> {gots[0] if len(gots) == 1 else gots}", ok=ok)
+    ctx.functions.add(fi.where)
     if bad:
-        ctx.violation("requester-selection", fi, node, f"address selection for (wan_known={bad[0]}, lan_known={bad[1]}, same_nat={bad[2]}) is {bad[3]}, must be {bad[4]} "
-                      "(different NAT: [lan?] wan; same NAT with LAN: lan; same NAT without LAN: wan + own-LAN-ip:wan-port)")
-    # all selected addresses are handed to discover_address
-    loops = [l for l in walk_no_nested(fi.node) if isinstance(l, ast.For) and norm(l.iter) == "introductions"]
-    ok = len(loops) == 1 and any(chain(c.func) == "self.network.discover_address" and norm(arg(c, 1)) == norm(loops[0].target) and norm(arg(c, 0)) == "peer"
-                                 for c in ast.walk(loops[0]) if isinstance(c, ast.Call)) and not any(isinstance(x, (ast.Break, ast.Return)) for x in ast.walk(loops[0]))
-    ctx.check(ok, "requester-selection", fi, fi.node, "every selected address becomes walkable (discover_address), introduced by the responder",
-              "selected introduction addresses are not all handed to the peer graph")
-    d = [s for s in walk_no_nested(fi.node) if isinstance(s, ast.Assign) and norm(s.targets[0]) == "introductions"]
-    ctx.check(len(d) == 1 and norm(d[0].value) == "[]", "requester-selection", fi, fi.node, "selection starts empty", "introductions list is pre-populated")
+        ctx.violation("requester-selection", fi, fi.node, f"address selection for (wan_known={bad[0]}, lan_known={bad[1]}, same_nat={bad[2]}) is {bad[3]}, must be {bad[4]} "
+                      f"(different NAT: [lan?] wan; same NAT with LAN: lan; same NAT without LAN: wan + own-LAN-ip:wan-port; other path conditions: {bad[5]})")
     # own WAN estimate learnt only from non-LAN IPv4 destinations
-    st = [s for s in walk_no_nested(fi.node) if isinstance(s, ast.Assign) and norm(s.targets[0]) == "self.my_estimated_wan"]
-    cfg = ctx.cfg(fi)
-    ok = len(st) == 1 and norm(st[0].value) == "payload.destination_address" and \
-        any(f.op == "truthy" and not f.pos and "address_in_lan_subnets(payload.destination_address[0])" in norm(f.left) for f in facts_at(cfg, st[0]))
-    ctx.check(ok, "requester-selection", fi, fi.node, "own WAN estimate is taken from responses that name a non-LAN IPv4 address",
+    n, ok = 0, True
+    for path in table[(True, True, True)]:
+        for st in path.stores:
+            if st.target == "self.my_estimated_wan":
+                n += 1
+                ok = ok and _t(st.value) == f"{payload}.destination_address" and \
+                    _fact(st.facts, fi, f"self.address_in_lan_subnets({payload}.destination_address[0])") is False
+    ctx.check(ok and n > 0, "requester-selection", fi, fi.node, "own WAN estimate is taken from responses that name a non-LAN IPv4 address",
               "the own-WAN estimate (used for the same-NAT test) is learnt from LAN addresses")
 
 
@@ -181,75 +782,99 @@ def rule_puncture_target(ctx: Ctx) -> None:
     fi = repo.method("Community", "on_puncture_request", CM)
     payload = fi.params()[3]
     W_, L_ = f"{payload}.wan_walker_address", f"{payload}.lan_walker_address"
-    snd = [c for c in calls(fi, "self.endpoint.send")]
-    ctx.check(len(snd) == 1, "puncture-target", fi, fi.node, "on_puncture_request sends exactly one puncture", "on_puncture_request does not send one puncture")
-    if len(snd) != 1:
-        return
-    tvar = arg(snd[0], 0)
-    cfgp = ctx.cfg(fi)
-    sn_ = cfgp.nodes_for(snd[0])
-    ok = cfgp.exit not in cfgp.reach(cut_nodes=sn_, follow_exc=False)
-    ctx.check(ok, "puncture-target", fi, snd[0], "every normal path of on_puncture_request sends the puncture",
-              "on_puncture_request can return without sending the puncture: the requester's next contact attempt is dropped by the introduced peer's NAT")
-    if not ok:
-        return
-    # evaluate the function as a table over S = same public IP
-    def atom_of(e):
-        t = norm(e)
-        if t == f"{W_}[0] == self.my_estimated_wan[0]":
-            return "S"
-        if t == f"{W_}[0] != self.my_estimated_wan[0]":
-            return "!S"
-        return None
-    result = {}
-
-    def on_effect(s, env, ev):
-        if isinstance(s, ast.Assign) and norm(s.targets[0]) == "packet":
-            env["packet"] = Opaque(norm(s.value))
-            return
-        if isinstance(s, ast.Expr) and s.value is snd[0]:
-            v = env.get(tvar.id) if isinstance(tvar, ast.Name) else Opaque(norm(tvar))
-            result["target"] = v.text if isinstance(v, Opaque) else v
-            return
-        raise AnalysisError(f"puncture target: unsupported statement `{norm(s)[:60]}`")
-    ev = TableEvaluator(fi, atom_of, on_effect=on_effect)
+    carried = True
+    first = None
     for s in (False, True):
-        result.clear()
-        ev.run({"S": s, "!S": not s})
         want = L_ if s else W_
-        ok = result.get("target") == want
-        ctx.instance("puncture-target", fi.where, f"same_nat={s} -> puncture sent to {result.get('target')}", ok=ok)
+        targets = []
+        for path in _paths(fi, _preset(fi, {f"{W_}[0] == self.my_estimated_wan[0]": s})):
+            snd = [c for c in path.calls if c.chain == "self.endpoint.send"]
+            first = first or (snd[0] if snd else None)
+            if path.end != "return" or len(snd) != 1:
+                ctx.check(False, "puncture-target", fi, fi.node, "every path of on_puncture_request sends exactly one puncture",
+                          f"on_puncture_request can finish without sending one puncture (path conditions: {path.extra()}): the requester's next contact "
+                          "attempt is dropped by the introduced peer's NAT")
+                return
+            t = _t(snd[0].arg(0, "socket_address"))
+            if t not in targets:
+                targets.append(t)
+            pk = snd[0].arg(1, "packet")
+            carried = carried and isinstance(pk, ast.Call) and chain(pk.func) == "self.create_puncture" and \
+                _args(pk, repo.method("Community", "create_puncture", CM).params()[1:4]) == ["self.my_estimated_lan", W_, f"{payload}.identifier"]
+        ok = targets == [want]
+        ctx.instance("puncture-target", fi.where, f"same_nat={s} -> puncture sent to {targets[0] if len(targets) == 1 else targets}", ok=ok)
         if not ok:
-            ctx.violation("puncture-target", fi, snd[0], f"with same_nat={s} the puncture goes to {result.get('target')}, must go to {want}")
-    pk = resolve(fi, arg(snd[0], 1))
-    ok = isinstance(pk, ast.Call) and chain(pk.func) == "self.create_puncture" and [norm(a) for a in pk.args[:3]] == ["self.my_estimated_lan", W_, f"{payload}.identifier"]
-    ctx.check(ok, "puncture-target", fi, snd[0], "puncture carries our LAN address, the requester's WAN address and the request's identifier",
+            ctx.violation("puncture-target", fi, first.src if first else fi.node, f"with same_nat={s} the puncture goes to {targets}, must go to {want}")
+    ctx.check(True, "puncture-target", fi, fi.node, "every path of on_puncture_request sends exactly one puncture")
+    ctx.check(carried, "puncture-target", fi, first.src if first else fi.node, "puncture carries our LAN address, the requester's WAN address and the request's identifier",
               "the puncture does not carry the identifier/addresses of the puncture request")
-    for name, new in (("on_old_puncture_request", False), ("on_new_puncture_request", True)):
+    for name in ("on_old_puncture_request", "on_new_puncture_request"):
         f2 = repo.method("Community", name, CM)
-        c = [x for x in calls(f2, "self.on_puncture_request")]
-        ok = len(c) == 1 and [norm(a) for a in c[0].args[:3]] == f2.params()[1:4]
+        ok = True
+        for path in _paths(f2):
+            c = [x for x in path.calls if x.chain == "self.on_puncture_request"]
+            ok = ok and path.end == "return" and len(c) == 1 and _args(c[0].call, fi.params()[1:4]) == f2.params()[1:4]
         ctx.check(ok, "puncture-target", f2, f2.node, f"{name} forwards to on_puncture_request unchanged", f"{name} does not forward the request unchanged")
+
+
+def _records_are_truthy(ctx: Ctx, da: FuncInfo) -> bool:
+    """Every value stored in Network._all_addresses is a WalkableAddress(...) and that is a NamedTuple with fields (never falsy)."""
+    wa = ctx.repo.try_cls("WalkableAddress", da.module.relpath)
+    if wa is None or "NamedTuple" not in wa.base_names or not any(isinstance(x, ast.AnnAssign) for x in wa.node.body) or da.cls is None:
+        return False
+    for m in da.cls.methods.values():
+        for st, _ in stores(m, "self._all_addresses[]"):
+            if isinstance(st, ast.Delete):
+                continue
+            v = getattr(st, "value", None)
+            if not (isinstance(st, ast.Assign) and isinstance(v, ast.Call) and chain(v.func) == "WalkableAddress"):
+                return False
+    return True
 
 
 def rule_introduction_recorded(ctx: Ctx) -> None:
     """discover_address (re)records an introduced address whenever it is unknown or its recorded introducer is not a verified key."""
     da = ctx.repo.method("Network", "discover_address", "ipv8/peerdiscovery/network.py")
-    addr = da.params()[2]
-    sts = [s for s, t in stores(da, "self._all_addresses[]")]
-    ctx.anchor(sts, "_all_addresses[address] = ... in discover_address")
-    st = sts[0]
-    iff = next((a for a in ancestors(st) if isinstance(a, ast.If)), None)
-    atoms = set()
-    if iff is not None and isinstance(iff.test, ast.BoolOp) and isinstance(iff.test.op, ast.Or):
-        atoms = {norm(v) for v in iff.test.values}
-    want = {f"{addr} not in self._all_addresses", f"self._all_addresses[{addr}].introduced_by not in self.verified_by_public_key_bin"}
-    ctx.check(atoms == want, "introduction-recorded", da, iff or st, "an introduced address is (re)recorded iff it is unknown or its introducer is no verified key",
-              f"discover_address records the introduction under the condition {sorted(atoms)} instead of {sorted(want)}: an address known without a live introducer "
-              "(e.g. from a snapshot) keeps service=None and is never offered as walkable for the overlay")
-    v = st.value
-    ok = isinstance(v, ast.Call) and chain(v.func) == "WalkableAddress" and [norm(a) for a in v.args] == [f"{da.params()[1]}.public_key.key_to_bin()", da.params()[3], da.params()[4]]
-    ctx.check(ok, "introduction-recorded", da, st, "record = (introducer key, service, new_style)", "the recorded introduction loses the introducer/service/new_style")
+    p = da.params()
+    peer, addr, service, new_style = p[1], p[2], p[3], p[4]
+    A = "self._all_addresses"
+    slot = f"{A}[{addr}]"
+    found, bad, bad_value = 0, None, None
+    rows = []
+    records_truthy = _records_are_truthy(ctx, da)
+    for k, live in itertools.product([False, True], repeat=2):
+        atoms = {f"{addr} in self.blacklist": False, f"{addr} in {A}": k, f"{A}[{addr}].introduced_by in self.verified_by_public_key_bin": live}
+        if records_truthy:
+            atoms[slot] = True                          # `self._all_addresses.get(address)` is truthy exactly when the address is known
+        pre = _preset(da, atoms)
+        want = (not k) or (not live)
+        outcomes = set()
+        for path in _paths(da, pre):
+            if path.end != "return":
+                continue
+            st = [s for s in path.stores if s.target == slot]
+            found += len(st)
+            outcomes.add(bool(st))
+            if bool(st) != want and bad is None:
+                bad = (k, live, bool(st), path.extra(), st[0].src if st else da.node)
+            for s in st:
+                v = s.value
+                good = isinstance(v, ast.Call) and chain(v.func) == "WalkableAddress" and \
+                    _args(v, ["introduced_by", "services", "new_style"]) == [f"{peer}.public_key.key_to_bin()", service, new_style]
+                if not good and bad_value is None:
+                    bad_value = s.src
+        rows.append((k, live, want, outcomes))
+    if not found:
+        raise AnalysisError("anchor-lost: _all_addresses[address] = ... in discover_address")
+    for k, live, want, outcomes in rows:
+        ctx.instance("introduction-recorded", da.where, f"known={k} live_introducer={live} -> recorded={sorted(outcomes)}", ok=outcomes == {want})
+    ctx.functions.add(da.where)
+    if bad:
+        ctx.violation("introduction-recorded", da, bad[4],
+                      f"discover_address {'records' if bad[2] else 'does not record'} the introduction for (known={bad[0]}, live introducer={bad[1]}; other path "
+                      f"conditions: {bad[3]}); it must (re)record iff the address is unknown or its introducer is no verified key: an address known without a live "
+                      "introducer (e.g. from a snapshot) keeps service=None and is never offered as walkable for the overlay")
+    ctx.check(bad_value is None, "introduction-recorded", da, bad_value or da.node, "record = (introducer key, service, new_style)", "the recorded introduction loses the introducer/service/new_style")
 
 
 def run(ctx: Ctx) -> None:
@@ -275,6 +900,15 @@ WITNESSES = [
      "old": "                introduction_wan = introduction.address\n            introduced = True", "new": "                introduction_wan = introduction.address\n                introduced = False\n            introduced = introduced or introduction_lan != (\"0.0.0.0\", 0)"},
     {"name": "requester may be introduced to itself", "file": CM, "rule": "puncture-accompanies",
      "old": "            introduction = self.get_peer_for_introduction(exclude=other, new_style=new_style)", "new": "            introduction = self.get_peer_for_introduction(new_style=new_style)"},
+    {"name": "LAN address recorded on first contact only", "file": CM, "rule": "puncture-accompanies",
+     "old": "        if isinstance(payload.source_lan_address, UDPv4Address):\n            peer.address = UDPv4LANAddress(",
+     "new": "        if isinstance(payload.source_lan_address, UDPv4Address) and peer not in self.network.verified_peers:\n            peer.address = UDPv4LANAddress("},
+    {"name": "introduction only re-recorded for named introducers", "file": "ipv8/peerdiscovery/network.py", "rule": "introduction-recorded",
+     "old": "                    or (self._all_addresses[address].introduced_by not in self.verified_by_public_key_bin)):",
+     "new": "                    or (self._all_addresses[address].introduced_by\n                        and self._all_addresses[address].introduced_by not in self.verified_by_public_key_bin)):"},
+    {"name": "puncture skipped for addresses we walk to ourselves", "file": CM, "rule": "puncture-target",
+     "old": "        packet = self.create_puncture(self.my_estimated_lan, payload.wan_walker_address, payload.identifier,",
+     "new": "        if target in self.get_walkable_addresses():\n            return\n        packet = self.create_puncture(self.my_estimated_lan, payload.wan_walker_address, payload.identifier,"},
     {"name": "same-NAT without LAN walks WAN only", "file": CM, "rule": "requester-selection",
      "old": "            introductions.append(payload.wan_introduction_address)\n            introductions.append(UDPv4Address(self.my_estimated_lan[0], payload.wan_introduction_address[1]))",
      "new": "            introductions.append(payload.wan_introduction_address)"},
